@@ -3,7 +3,7 @@ pid=sys.argv[1]; n=sys.argv[2] if len(sys.argv)>2 else '3'
 for l in open('/verif/properties.jsonl'):
     p=json.loads(l)
     if p['id']==pid: break
-wt=f'/tmp/seed4_{pid.lower()}'
+wt=f'/tmp/seed5_{pid.lower()}'
 mech='; '.join(f"{m['name']} ({m['where']})" for m in p['anchors']['mechanism'])
 prev=[]
 for d in sorted(glob.glob(f'/verif/seeded/{pid}_*m[0-9]')):
@@ -17,7 +17,7 @@ The semantic property under test:
 "{pid} — {p['title']}. {p['statement']} Quantified: {p['quantifier']['text']}"
 Code that is meant to make it hold: {mech}.
 
-This is a FOURTH round. The following changes were already produced in earlier rounds — do NOT repeat them or close variants; look for different functions, different clauses of the property, different kinds of trigger:
+This is a FIFTH round. The following changes were already produced in earlier rounds — do NOT repeat them or close variants; look for different functions, different clauses of the property, different kinds of trigger:
 {prevtxt}
 
 Task: produce {n} different, independent code changes (mutations) to the gnpy source (not to tests), each of which (1) breaks the property above, (2) still imports/compiles, (3) keeps the ENTIRE existing test suite passing: run the full suite `cd {wt} && PYTHONPATH={wt} /venv/bin/python -m pytest -q -p no:cacheprovider --timeout=900 --deselect tests/test_invocation.py --deselect tests/test_parser.py::test_auto_design_generation_fromjson --deselect tests/test_parser.py::test_auto_design_generation_fromxlsgainmode` (takes ~5 min; the deselected tests fail already on the unmodified tree; while iterating run only the most relevant test files, but run the full suite once per final mutation, one suite at a time), and (4) needs something SPECIFIC to manifest — a particular multi-step sequence of operations, an unusual but valid input or configuration that the shipped examples/tests do not use, a boundary value, a particular ordering, or two cooperating sites that each look fine alone — NOT something ordinary use would expose at once. Prefer subtle, realistic programmer mistakes (off-by-one, wrong variable in one branch, condition weakened, sign/units slip in a rarely used branch, state shared or not reset in one case, a rounding or ordering slip, a default applied in the wrong case) over blunt sabotage. Make them diverse.
